@@ -119,7 +119,7 @@ impl Prop for C03 {
                         }
                     }
                 }
-                EK::Energy | EK::StepVec | EK::RatioVec => {
+                EK::Energy | EK::StepVec | EK::RatioVec | EK::Need => {
                     for i in 1..4 {
                         let vk = match get(i) {
                             Ok(v) => v,
